@@ -54,12 +54,12 @@ ASSUMPTIONS = [
     'changed by the application after construction',
 ]
 MIN_EVENTS = {
-    'quick': {'refused_accesses_judged': 6000, 'granted_accesses_seen': 3000, 'disclosure_scans': 12000,
-              'value_unchanged_checks': 3000, 'mixed_order_requests': 1500, 'value_attributes_exercised': 1500,
-              'eatt_accesses': 2000},
-    'thorough': {'refused_accesses_judged': 60000, 'granted_accesses_seen': 30000, 'disclosure_scans': 120000,
-                 'value_unchanged_checks': 30000, 'mixed_order_requests': 15000, 'value_attributes_exercised': 15000,
-                 'eatt_accesses': 20000},
+    'quick': {'refused_accesses_judged': 18000, 'granted_accesses_seen': 5000, 'disclosure_scans': 20000,
+              'value_unchanged_checks': 10000, 'mixed_order_requests': 3500, 'value_attributes_exercised': 1900,
+              'eatt_accesses': 14000, 'refusals_with_matching_error': 5000},
+    'thorough': {'refused_accesses_judged': 180000, 'granted_accesses_seen': 50000, 'disclosure_scans': 200000,
+                 'value_unchanged_checks': 100000, 'mixed_order_requests': 35000, 'value_attributes_exercised': 19000,
+                 'eatt_accesses': 140000, 'refusals_with_matching_error': 50000},
 }
 CASE_TIMEOUT = 300
 
